@@ -1,10 +1,13 @@
 """C01 - readers preserve every cue's start and end instant (SRT, WebVTT, DFXP, SAMI, MicroDVD).
 
-Abstract documents (numeric stamp fields + zero padding + fraction digits; coq/spec/SpecTime.v) are rendered by the
-Coq spec renderer; the real reader (public API, Reader().read) and the extracted model (coq/model/TimeRead.v) read the
-rendered text.  Property oracle: Coq ok_times (request 105) on what the implementation returned, against
-floor(instant * 10^6) per non-empty cue computed in Q by the spec.  Correspondence: model == implementation,
-including the exception class on the malformed stream.
+Abstract documents (numeric stamp fields + zero padding + fraction digits; cues in any order; coq/spec/SpecTime.v) are
+rendered by the Coq spec renderer (SRT, WebVTT, MicroDVD: whole documents; DFXP, SAMI: the attribute strings, the document
+around them is assembled here); the real reader (public API, Reader().read, lang option varied, fresh and long-lived
+reader objects) and the extracted model (coq/model/TimeRead.v, TimeTree.v) read the text.  Property oracle: Coq ok_times /
+ok_times_alt (requests 105 / 116) on what the implementation returned, against floor(instant * 10^6) per non-empty cue
+computed in Q by the spec.  Correspondence: model == implementation on every in-domain document (failing); on the
+malformed / raw stream, strict WebVTT on unsorted cues and blank paragraphs with junk times the two are compared incl.
+the exception class but a difference is only RECORDED (the property is silent there).
 """
 import json
 from fractions import Fraction
@@ -37,6 +40,8 @@ def unplain(x):
 def times_of(cs, lang=None):
     """observation: Ok([[start, end], ...]) with exact integers, or a marker for non-integral values"""
     langs = cs.get_languages()
+    if not langs:
+        return []          # an empty caption set holds no caption (the exception is not demanded)
     lang = lang if lang is not None else langs[0]
     out = []
     for c in cs.get_captions(lang):
@@ -72,7 +77,12 @@ def make_reader(fmt, opts=None):
     raise ValueError(fmt)
 
 
-def extract(fmt, cs, lang=None):
+def extract(fmt, cs, lang=None, rlang=None):
+    if rlang is not None:
+        # the `lang` option of SRTReader / WebVTTReader / MicroDVDReader: the captions are filed under that language only
+        if cs.get_languages() != [rlang]:
+            return ("languages", repr(cs.get_languages()))
+        return times_of(cs, rlang)
     if fmt == "dfxp":
         return times_of(cs, lang)
     if fmt == "sami":
@@ -82,9 +92,13 @@ def extract(fmt, cs, lang=None):
     return times_of(cs)
 
 
-def read_with(fmt, doc, opts=None, lang=None):
+def do_read(reader, doc, rlang):
+    return reader.read(doc, lang=rlang) if rlang is not None else reader.read(doc)
+
+
+def read_with(fmt, doc, opts=None, lang=None, rlang=None):
     """run the real reader (a fresh object); Ok(list of [start, end]) or Err(code) or ('non-integer', repr)"""
-    return impl.call(lambda: extract(fmt, make_reader(fmt, opts).read(doc), lang))
+    return impl.call(lambda: extract(fmt, do_read(make_reader(fmt, opts), doc, rlang), lang, rlang))
 
 
 # history: one long-lived reader object per format (and per option set) reads every generated document after having
@@ -92,22 +106,24 @@ def read_with(fmt, doc, opts=None, lang=None):
 REUSED = {}
 
 
-def read_reused(fmt, doc, opts=None, lang=None):
+def read_reused(fmt, doc, opts=None, lang=None, rlang=None):
     """(observation of the long-lived reader, the last documents it read before)"""
     key = (fmt, tuple(opts) if opts else None)
     if key not in REUSED:
         REUSED[key] = [make_reader(fmt, opts), []]
     reader, hist = REUSED[key]
     prev = list(hist)
-    r = impl.call(lambda: extract(fmt, reader.read(doc), lang))
+    r = impl.call(lambda: extract(fmt, do_read(reader, doc, rlang), lang, rlang))
     hist.append(doc)
     del hist[:-12]
     return r, prev
 
 
-def check_reuse(acc, fmt, rec, fresh, doc, opts=None, lang=None):
-    """the long-lived reader must return what the fresh reader returns (value or exception class)"""
-    reused, prev = read_reused(fmt, doc, opts, lang)
+def check_reuse(acc, fmt, rec, fresh, doc, opts=None, lang=None, rlang=None, dom=True):
+    """the long-lived reader must return what the fresh reader returns (value; on in-domain documents only)"""
+    reused, prev = read_reused(fmt, doc, opts, lang, rlang)
+    if not dom:
+        return
     d = acc.res["distribution"]
     d["reads_with_a_reused_reader_object"] = d.get("reads_with_a_reused_reader_object", 0) + 1
     same_obs = (isinstance(fresh, Ok) and isinstance(reused, Ok) and fresh.v == reused.v) or \
@@ -115,7 +131,7 @@ def check_reuse(acc, fmt, rec, fresh, doc, opts=None, lang=None):
     if not same_obs:
         v = dict(rec)
         v.update({"kind": fmt.split("-")[0] + "-reused-reader", "format": fmt, "replay": "reuse", "history": prev,
-                  "document": doc, "opts": plain(opts), "lang": lang,
+                  "document": doc, "opts": plain(opts), "lang": lang, "rlang": rlang,
                   "what": ("a %s reader object that had read other documents before returned %s; a fresh reader returns %s"
                            % (fmt, show(reused), show(fresh)))[:500]})
         acc.res["violations"].append(v)
@@ -134,8 +150,10 @@ class Acc:
         self.res = {"evaluations": 0, "nontrivial": set(), "violations": [], "disagreements": [], "distribution": {},
                     "streams": 0, "notes": [], "samples": []}
         self.pending = []   # (fmt, record, expected, impl_obs, model_obs, in_dom)
+        self.alt = {}       # index in pending -> expected under the other admissible reading (begin+dur)
 
-    def add(self, fmt, rec, expected, obs, model, in_dom=True):
+    def add(self, fmt, rec, expected, obs, model, in_dom=True, expected2=None):
+        self.alt[len(self.pending)] = expected2
         # a document without any non-empty cue: CaptionReadNoCaptions is the documented answer
         if expected == [] and isinstance(obs, Err) and obs.code == 1:
             obs = Ok([])
@@ -148,7 +166,10 @@ class Acc:
         idx = []
         for i, (fmt, rec, expected, obs, model, in_dom) in enumerate(self.pending):
             if isinstance(obs, (Ok, Err)) and not (isinstance(obs, Ok) and isinstance(obs.v, tuple)):
-                reqs.append((105, [expected, obs]))
+                if self.alt.get(i) is not None:
+                    reqs.append((116, [expected, self.alt[i], obs]))
+                else:
+                    reqs.append((105, [expected, obs]))
                 idx.append(i)
         oks = oracle_batch(reqs) if reqs else []
         okmap = dict(zip(idx, oks))
@@ -171,8 +192,14 @@ class Acc:
                           "impl_obs": show(obs), "replay": "doc"})
                 self.res["violations"].append(v)
             elif model is not None and not (isinstance(obs, Ok) and isinstance(model, Ok) and obs.v == model.v):
-                self.res["disagreements"].append({"format": fmt, "input": rec, "impl": show(obs), "model": show(model)})
+                if self.alt.get(i) is not None:
+                    # the implementation took the other admissible reading of begin+dur: counted, not a failure
+                    d["begin_dur_other_reading_than_model"] = d.get("begin_dur_other_reading_than_model", 0) + 1
+                else:
+                    self.res["disagreements"].append({"format": fmt, "input": rec, "impl": show(obs),
+                                                      "model": show(model)})
         self.pending = []
+        self.alt = {}
 
 
 SHRINK = {"srt": (100, 1), "vtt": (101, 3), "mdvd": (102, 2)}
@@ -237,10 +264,21 @@ def stream_docs(ctx, acc, fmt, n, gen, code, args_of, opts_of, nontriv):
     trimmed = []
     for d, o in zip(docs, outs):
         text, model, expected, dom = o[0], model_times(o[1]), o[2], all(x == 1 for x in o[3:])
-        obs = read_with(fmt, text, opts_of(d))
-        check_reuse(acc, fmt, {"input": plain(d)}, obs, text, opts_of(d))
+        rlang = ctx.rng.choice([None, None, None, "fr", "xx-YY", "en", "de-CH"])
+        obs = read_with(fmt, text, opts_of(d), rlang=rlang)
         if not dom and fmt == "vtt" and o[3] == 1 and not d[0]:
-            dom = True          # unsorted cues are inside the domain of the non-strict reader
+            dom = True          # unsorted / overlapping cues are inside the domain of the lenient reader
+        check_reuse(acc, fmt, {"input": plain(d)}, obs, text, opts_of(d), rlang=rlang,
+                    dom=dom and not (fmt == "vtt" and d[0] and o[4] != 1))
+        dd0 = acc.res["distribution"]
+        if rlang is not None:
+            dd0[fmt + "_read_with_lang_option"] = dd0.get(fmt + "_read_with_lang_option", 0) + 1
+        cl = {"srt": 1, "vtt": 3, "mdvd": 2}[fmt]
+        if len(d[cl]) > 6:
+            dd0[fmt + "_documents_with_more_than_50_cues"] = dd0.get(fmt + "_documents_with_more_than_50_cues", 0) + 1
+        if dom and (expected != sorted(expected) or any(a[1] > b[0] for a, b in zip(expected, expected[1:]))
+                    or any(a > b for a, b in expected)):
+            dd0[fmt + "_documents_unsorted_or_overlapping"] = dd0.get(fmt + "_documents_unsorted_or_overlapping", 0) + 1
         if fmt == "vtt" and o[3] == 1 and o[4] != 1 and d[0]:
             # strict reader on unsorted cues: refusal is the documented behaviour; compare model and implementation
             acc.res["distribution"]["vtt_strict_unsorted_compared_with_model_only"] = \
@@ -249,7 +287,7 @@ def stream_docs(ctx, acc, fmt, n, gen, code, args_of, opts_of, nontriv):
                 differs(acc.res, {"format": fmt, "input": plain(d), "impl": show(obs), "model": show(model)})
             acc.res["evaluations"] += 1
             continue
-        rec = {"input": plain(d), "document": text, "opts": plain(opts_of(d))}
+        rec = {"input": plain(d), "document": text, "opts": plain(opts_of(d)), "rlang": rlang}
         acc.add(fmt, rec, expected, obs, model, dom)
         if dom and fmt == "mdvd":
             dd = acc.res["distribution"]
@@ -362,46 +400,91 @@ EXTRA_ATTRS = [("region", "r1"), ("style", "s1"), ("xml:id", "p%d"), ("tts:texta
 BLANK_ATTRS = [[], [("begin", "junk")], [("begin", "1s")], [("end", "2s")], [("begin", "5s"), ("end", "1s")], [("dur", "x")]]
 
 
-def gen_dfxp_tree(rng):
+WELL_FORMED_BLANK = [[], [("begin", "1s")], [("end", "2s")], [("begin", "1s"), ("dur", "2s")]]
+JUNK_BLANK = [[("begin", "junk")], [("begin", "5s"), ("end", "1s")], [("dur", "x")]]
+
+
+def gen_dfxp_doc(rng):
+    """a document tree: <div>s (several of one language, nested ones, with / without own xml:lang) holding <p>s with and
+    without text; now and then a <p> outside every <div>.  Returns (tt lang, tree, has_junk_blank)."""
     tt = rng.choice([None, None, "en", "fr", "de-AT"])
-    langs = rng.sample([None, "en-US", "es", "pt-BR", "zh"], rng.choice([1, 1, 2, 3]))
-    divs = []
-    k = 0
-    for l in langs:
-        ps = []
-        for _ in range(rng.choice([0, 1, 2, 3, 4])):
-            k += 1
+    pool = [None, None, None, "en-US", "es", "pt-BR"]
+    state = {"k": 0, "junk": False}
+
+    def gen_p():
+        state["k"] += 1
+        if rng.random() < 0.25:
             if rng.random() < 0.3:
-                ps.append([1, [list(a) for a in rng.choice(BLANK_ATTRS)]])
+                state["junk"] = True
+                return ["p", [1, [list(a) for a in rng.choice(JUNK_BLANK)]]]
+            return ["p", [1, [list(a) for a in rng.choice(WELL_FORMED_BLANK)]]]
+        ex = [[n, v % state["k"] if "%d" in v else v] for (n, v) in rng.sample(EXTRA_ATTRS, rng.choice([0, 0, 1, 2]))]
+        return ["p", [0, ex, [tg.gen_texpr(rng), rng.random() < 0.3, tg.gen_texpr(rng)]]]
+
+    def gen_div(depth):
+        kids = []
+        for _ in range(rng.choice([0, 1, 2, 2, 3])):
+            if depth < 2 and rng.random() < 0.2:
+                kids.append(gen_div(depth + 1))
             else:
-                ex = [[n, v % k if "%d" in v else v] for (n, v) in rng.sample(EXTRA_ATTRS, rng.choice([0, 0, 1, 2]))]
-                ps.append([0, ex, [tg.gen_texpr(rng), rng.random() < 0.3, tg.gen_texpr(rng)]])
-        divs.append([None if l is None else Some(l), ps])
-    return [None if tt is None else Some(tt), divs]
+                kids.append(gen_p())
+        return ["div", rng.choice(pool), kids]
+
+    tree = []
+    for _ in range(rng.choice([1, 2, 2, 3, 4])):
+        tree.append(gen_p() if rng.random() < 0.08 else gen_div(0))
+    return tt, tree, state["junk"]
 
 
-def render_dfxp_tree(tt, rendered):
-    out = ['<?xml version="1.0" encoding="utf-8"?>\n<tt%s xmlns="http://www.w3.org/ns/ttml" '
-           'xmlns:tts="http://www.w3.org/ns/ttml#styling"><head></head><body>' % ("" if tt is None else ' xml:lang="%s"' % tt.v)]
-    n = 0
-    for (lang, ps) in rendered:
-        out.append("<div%s>" % ("" if not lang else ' xml:lang="%s"' % lang[0]))
-        for (attrs, text) in ps:
-            n += 1
+def flatten_dfxp(tree):
+    """(div chains, paragraphs with the chain of their nearest div or None) in document order"""
+    divs, ps = [], []
+
+    def walk(node, chain):
+        if node[0] == "p":
+            ps.append([None if chain is None else Some([None if x is None else Some(x) for x in chain]), node[1]])
+        else:
+            ch = [node[1]] + (chain or [])
+            divs.append([None if x is None else Some(x) for x in ch])
+            for k in node[2]:
+                walk(k, ch)
+    for n in tree:
+        walk(n, None)
+    return divs, ps
+
+
+def render_dfxp_doc(tt, tree, rendered, frame_rate=None):
+    it = iter(rendered)
+    n = [0]
+
+    def walk(node):
+        if node[0] == "p":
+            attrs, text = next(it)
+            n[0] += 1
             a = "".join(' %s="%s"' % (nm, v) for (nm, v) in attrs)
-            out.append("<p%s>%s</p>" % (a, ("words %d" % n) if text == 1 else "  "))
-        out.append("</div>")
-    out.append("</body></tt>")
-    return "\n".join(out)
+            return "<p%s>%s</p>" % (a, ("words %d" % n[0]) if text == 1 else "  ")
+        return "<div%s>\n%s\n</div>" % ("" if node[1] is None else ' xml:lang="%s"' % node[1],
+                                         "\n".join(walk(k) for k in node[2]))
+    body = "\n".join(walk(x) for x in tree)
+    return ('<?xml version="1.0" encoding="utf-8"?>\n<tt%s%s xmlns="http://www.w3.org/ns/ttml" '
+            'xmlns:tts="http://www.w3.org/ns/ttml#styling" xmlns:ttp="http://www.w3.org/ns/ttml#parameter"><head></head><body>\n%s\n</body></tt>'
+            % ("" if tt is None else ' xml:lang="%s"' % tt, "" if frame_rate is None else ' ttp:frameRate="%s"' % frame_rate, body))
 
 
 def dict_obs(cs):
     return [[l, times_of(cs, l)] for l in cs.get_languages()]
 
 
-def compare_dict(acc, fmt, rec, expected, obs, model, dom):
+def lang_ok(caps, alt, times):
+    if alt is not None:
+        return oracle1(116, [caps, alt, Ok(times)]) == 1
+    return oracle1(105, [caps, Ok(times)]) == 1
+
+
+def compare_dict(acc, fmt, rec, expected, obs, model, dom, expected2=None):
     """expected / model: Ok([[lang, pairs], ..]) / Err ; obs: Ok([[lang, times]..]) / Err.  The oracle is evaluated per
-    language (request 105); the order of the languages belongs to C14: a difference there is recorded, not failed."""
+    language (requests 105 / 116).  A language without any expected caption may be missing; a document without any
+    caption may be refused or returned empty; the order of the languages belongs to C14 (recorded, not failed)."""
     res = acc.res
     res["evaluations"] += 1
     d = res["distribution"]
@@ -409,43 +492,72 @@ def compare_dict(acc, fmt, rec, expected, obs, model, dom):
     if not dom:
         d[fmt + "_out_of_domain_dropped"] = d.get(fmt + "_out_of_domain_dropped", 0) + 1
         return
-    if isinstance(expected, Err):
-        ok = isinstance(obs, Err) and obs.code == expected.code
-    elif isinstance(obs, Err) or any(isinstance(t, tuple) for (_, t) in obs.v):
+    exp = expected.v if isinstance(expected, Ok) else []
+    alt = dict(expected2.v) if isinstance(expected2, Ok) else {}
+    if isinstance(obs, Err):
+        ok = obs.code == 1 and all(not caps for (_, caps) in exp)
+    elif any(isinstance(t, tuple) for (_, t) in obs.v):
         ok = False
     else:
         od = {l: t for (l, t) in obs.v}
-        ok = set(od) == {l for (l, _) in expected.v} and all(
-            oracle1(105, [caps, Ok(od[l])]) == 1 for (l, caps) in expected.v)
-        if ok and [l for (l, _) in obs.v] != [l for (l, _) in expected.v]:
-            differs(res, {"format": fmt, "what": "language order", "impl": [l for (l, _) in obs.v],
-                          "model": [l for (l, _) in expected.v]})
+        el = {l for (l, _) in exp}
+        ok = all(l in el or not t for (l, t) in obs.v) and all(
+            (lang_ok(caps, alt.get(l) if expected2 is not None else None, od[l]) if l in od else not caps)
+            for (l, caps) in exp)
+        if ok and [l for (l, _) in obs.v] != [l for (l, _) in exp]:
+            differs(res, {"format": fmt, "what": "language order / empty languages", "impl": [l for (l, _) in obs.v],
+                          "model": [l for (l, _) in exp]})
     if not ok:
         v = dict(rec)
         v.update({"kind": fmt + "-times", "format": fmt, "replay": "tree", "expected": show(expected),
+                  "expected2": show(expected2) if expected2 is not None else None,
                   "what": ("%s reader returned %s for a document denoting %s" % (fmt, show(obs), show(expected)))[:500]})
         res["violations"].append(v)
     elif not same(obs, model):
         if isinstance(obs, Ok) and isinstance(model, Ok) and sorted(obs.v) == sorted(model.v):
             pass
+        elif expected2 is not None:
+            d["begin_dur_other_reading_than_model"] = d.get("begin_dur_other_reading_than_model", 0) + 1
         else:
             res["disagreements"].append({"format": fmt, "input": rec, "impl": show(obs), "model": show(model)})
 
 
 def stream_dfxp_tree(ctx, acc, n):
-    cases = [gen_dfxp_tree(ctx.rng) for _ in range(n)]
-    outs = oracle_batch([(114, c) for c in cases])
-    for c, o in zip(cases, outs):
-        doc = render_dfxp_tree(c[0], o[0])
-        model, expected, dom = r_result(o[1]), r_result(o[2]), o[3] == 1
+    cases = [gen_dfxp_doc(ctx.rng) for _ in range(n)]
+    flat = [flatten_dfxp(tree) for (_, tree, _) in cases]
+    outs = oracle_batch([(114, [None if tt is None else Some(tt), divs, ps]) for (tt, _, _), (divs, ps) in zip(cases, flat)])
+    dd = acc.res["distribution"]
+    for (tt, tree, junk), (divs, ps), o in zip(cases, flat, outs):
+        doc = render_dfxp_doc(tt, tree, o[0])
+        model, expected, expected2, dom = r_result(o[1]), r_result(o[2]), r_result(o[3]), o[4] == 1
         obs = impl.call(lambda: dict_obs(DFXPReader().read(doc)))
-        check_reuse(acc, "dfxp-tree", {"input": plain(c)}, obs, doc)
-        rec = {"input": plain(c), "document": doc, "opts": None}
-        compare_dict(acc, "dfxp-tree", rec, expected, obs, model, dom)
+        rec = {"input": plain([tt, tree]), "document": doc, "opts": None}
+        langs = [nearest(tt, ch) for ch in divs]
+        if len(set(langs)) < len(langs):
+            dd["dfxp_documents_with_several_divisions_of_a_language"] = dd.get("dfxp_documents_with_several_divisions_of_a_language", 0) + 1
+        if any(len(ch) > 1 for ch in divs):
+            dd["dfxp_documents_with_nested_divisions"] = dd.get("dfxp_documents_with_nested_divisions", 0) + 1
+        if junk:
+            # a paragraph WITHOUT text carries malformed time attributes: not well-formed TTML, the property is silent;
+            # model and implementation are still compared (recorded, not failing)
+            dd["dfxp_documents_with_malformed_blank_paragraph"] = dd.get("dfxp_documents_with_malformed_blank_paragraph", 0) + 1
+            if not same(obs, model) and not (isinstance(obs, Ok) and isinstance(model, Ok) and sorted(obs.v) == sorted(model.v)):
+                differs(acc.res, {"format": "dfxp-tree", "input": rec["input"], "impl": show(obs), "model": show(model)})
+            acc.res["evaluations"] += 1
+            continue
+        check_reuse(acc, "dfxp-tree", {"input": rec["input"]}, obs, doc, dom=dom)
+        compare_dict(acc, "dfxp-tree", rec, expected, obs, model, dom, expected2)
         if dom:
-            acc.res["nontrivial"].add(("dfxp-tree", repr(plain(c))))
+            acc.res["nontrivial"].add(("dfxp-tree", repr(rec["input"])))
     if cases:
-        acc.res["samples"].append({"format": "dfxp-tree", "input": plain(cases[0])})
+        acc.res["samples"].append({"format": "dfxp-tree", "input": plain([cases[0][0], cases[0][1]])})
+
+
+def nearest(tt, chain):
+    for x in chain:
+        if x is not None:
+            return x.v
+    return tt if tt is not None else "und"
 
 
 def stream_sami_tree(ctx, acc, n):
@@ -472,9 +584,92 @@ def stream_sami_tree(ctx, acc, n):
             acc.res["nontrivial"].add(("sami-tree", repr(syncs)))
 
 
+# ---- explicit well-formed spellings outside the spec renderer: judged by the oracle with a hand-written expectation ----
+def explicit_cases():
+    sami = ('<SAMI><HEAD><STYLE TYPE="text/css"><!--\n.ENCC {Name: E; lang: en-US;}\n--></STYLE></HEAD><BODY>'
+            '<SYNC start="%s"><P class=ENCC>one</P></SYNC><SYNC Start=%s><P class=ENCC>&nbsp;</P></SYNC></BODY></SAMI>')
+    vtt_body = "00:01.000 --> 00:02.500\nx\n\n1:00:03.000 --> 01:00:04.000\ny\n"
+    exp_vtt = [[1000000, 2500000], [3603000000, 3604000000]]
+    out = [
+        # SAMI: the start attribute is a number; pycaption's own writer used to emit "1000.0"
+        ("sami", sami % ("1000.0", "2500"), None, [[1000000, 2500000]], 112, [[Some("1000.0"), True], [Some("2500"), False]]),
+        ("sami", sami % ("1e3", "2.5e3"), None, [[1000000, 2500000]], 112, [[Some("1e3"), True], [Some("2.5e3"), False]]),
+        ("sami", sami % ("1000.9", "02500.0"), None, [[1000000, 2500000]], 112, [[Some("1000.9"), True], [Some("02500.0"), False]]),
+        # WebVTT header variants
+        ("vtt", "\ufeffWEBVTT\n\n" + vtt_body, (False, 0), exp_vtt, 113, None),
+        ("vtt", "WEBVTT - a title\n\n" + vtt_body, (True, 0), exp_vtt, 113, None),
+        ("vtt", "WEBVTT\nKind: captions\nLanguage: en\n\nNOTE first\n\n" + vtt_body, (True, 0), exp_vtt, 113, None),
+        ("vtt", "WEBVTT\r\n\r\n" + vtt_body.replace("\n", "\r\n"), (False, 500), [[1500000, 3000000], [3603500000, 3604500000]], 113, None),
+        # SRT: CRLF, a trailing blank after the stamp, no blank line at the end
+        ("srt", "1\r\n00:00:01,000 --> 00:00:02,500 \r\nx\r\n\r\n2\r\n01:00:03,000 --> 01:00:04,000\r\ny", None, exp_vtt, 109, None),
+        # MicroDVD: declared rates in the other float spellings
+        ("mdvd", "{0}{0}.5\n{1}{2}t\n", None, [[2000000, 4000000]], 110, None),
+        ("mdvd", "{0}{0}1e2\n{100}{250}t\n", None, [[1000000, 2500000]], 110, None),
+        ("mdvd", "{0}{0}+25\n{25}{50}t\n", None, [[1000000, 2000000]], 110, None),
+        ("mdvd", "{0}{0} 12.5 \n{25}{50}t\n", None, [[2000000, 4000000]], 110, None),
+        # DFXP: a time expression followed by a line break inside the attribute value
+        ("dfxp", tg.dfxp_doc([("en", [("1s&#10;", "2.5s", None, "t")])]), None, [[1000000, 2500000]], 111,
+         [[Some("1s\n"), Some("2.5s"), None]]),
+    ]
+    return out
+
+
+def stream_explicit(ctx, acc):
+    cases = explicit_cases()
+    reqs = []
+    for (fmt, doc, opts, exp, code, marg) in cases:
+        if marg is not None:
+            reqs.append((code, marg))
+        elif fmt == "vtt":
+            reqs.append((113, [opts[0], opts[1], doc]))
+        else:
+            reqs.append((code, doc))
+    models = oracle_batch(reqs)
+    for (fmt, doc, opts, exp, code, marg), m in zip(cases, models):
+        if fmt == "sami":
+            r = read_with("sami", doc)
+            obs = Ok(r.v.get("en-US", [])) if isinstance(r, Ok) and isinstance(r.v, dict) else r
+            model = r_result(m)
+        elif fmt == "dfxp":
+            obs = read_with("dfxp", doc, lang="en")
+            model = r_result(m)
+        else:
+            obs = read_with(fmt, doc, opts)
+            model = model_times(m)
+        rec = {"input": "explicit", "document": doc, "opts": plain(opts) if fmt == "vtt" else ("en-US" if fmt == "sami" else None)}
+        acc.add(fmt, rec, exp, obs, model, True)
+    acc.res["distribution"]["explicit_well_formed_spellings"] = len(cases)
+    acc.flush()
+
+
+# ---- a declared frame rate (ttp:frameRate): the reader hard-codes 30 frames per second - recorded finding ----------
+def stream_frame_rate(ctx, acc):
+    rng = ctx.rng
+    d = acc.res["distribution"]
+    for _ in range(ctx.n(12, 200)):
+        rate = rng.choice([24, 25, 50, 60])
+        ff = rng.randrange(1, rate)
+        s1, s2 = rng.randrange(0, 50), rng.randrange(50, 59)
+        begin = "00:00:%02d:%02d" % (s1, ff)
+        end = "00:00:%02d:%02d" % (s2, ff)
+        exp = [[(s1 * rate + ff) * 10**6 // rate, (s2 * rate + ff) * 10**6 // rate]]
+        at30 = [[s1 * 10**6 + ff * 10**6 // 30, s2 * 10**6 + ff * 10**6 // 30]]
+        doc = render_dfxp_doc("en", [["div", None, [["p", None]]]], [([["begin", begin], ["end", end]], 1)], frame_rate=rate)
+        obs = read_with("dfxp", doc, lang="en")
+        acc.res["evaluations"] += 1
+        d["dfxp_declared_frame_rate_cases"] = d.get("dfxp_declared_frame_rate_cases", 0) + 1
+        if isinstance(obs, Ok) and obs.v == exp:
+            continue
+        kind = "dfxp-declared-frame-rate" if (isinstance(obs, Ok) and obs.v == at30 and exp != at30) else "dfxp-times"
+        acc.res["violations"].append({
+            "kind": kind, "format": "dfxp", "document": doc, "expected": exp, "opts": None, "replay": "doc", "input": None,
+            "what": "ttp:frameRate=%d, begin=%s: the document denotes %s, the reader returned %s" % (rate, begin, exp, show(obs))})
+
+
 # ---- malformed / raw stream: model == implementation incl. the exception class ------------------
 RAW_SRT = ["00:00:01,000", "0:0:1,5", "1:2:3", "1:2", "1:2:3,4,5", "::,", "", "01:02:03,", "01:02:03.5", "1:2:3:4",
-           "999:59:59,999", "0001:00:00,000", "1:2:,5", "a:b:c", "1::3,0", "00:00:01,1000"]
+           "999:59:59,999", "0001:00:00,000", "1:2:,5", "a:b:c", "1::3,0", "00:00:01,1000", "00:00:01,5", "00:00:01,50",
+           "00:00:01,1234", "00:00:01,000000"]
 RAW_VTT = ["00:01.000", "0:01.000", "00:00:01.000", "1:00:01.000", "00:01.0000", "00:01.00", "00:1.000", "100:01.000",
            "00:01:02.000", "00:01:02", "00:01,000", "1234:56.789xyz", "00:01.000extra", "00:00:60.000", "59:59.999",
            "", "abc", "00:01:2.000", "0:00:01:02.000", "00:01.0a0"]
@@ -610,34 +805,57 @@ def run(ctx):
     stream_sami(ctx, acc, q(300, 5000))
     stream_dfxp_tree(ctx, acc, q(400, 6000))
     stream_sami_tree(ctx, acc, q(250, 4000))
+    stream_explicit(ctx, acc)
+    stream_frame_rate(ctx, acc)
     stream_raw(ctx, acc, q(150, 2500))
     if ctx.thorough:
         sweep(ctx, acc)
-    res["streams"] = 7
+    res["streams"] = 9
     res["distribution"].setdefault("model_differences_outside_the_property", 0)
-    res["notes"].append("malformed/raw stream and strict-unsorted WebVTT: model vs implementation compared incl. exception "
-                        "class; %d differences (recorded, not failing: the property is silent there); first: %s" % (
+    res["notes"].append("malformed/raw stream, strict-unsorted WebVTT and blank paragraphs with junk time attributes: model "
+                        "vs implementation compared incl. exception class; %d differences (recorded, NOT failing: the "
+                        "property is silent there); first: %s" % (
                             res["distribution"]["model_differences_outside_the_property"],
                             str(res.get("model_differences", [None])[0])[:300]))
-    res["rule"] = ("abstract documents of 1-6 cues per format rendered by the Coq spec renderer: hours from "
-                   "{0,1,9,10,23,24,25,99,100,999}+random with 0-3 extra leading zeros, minutes/seconds {0,1,9,10,59}+random, "
-                   "ms {0,1,9,10,99,100,999}+random, SRT fraction absent or 3 digits, DFXP fractions of length 1-20 with "
-                   "leading zeros, frames {0,1,14,15,29}+random, offsets in h/m/s/ms/f with integer and fractional counts, "
-                   "begin+dur, MicroDVD frames incl. 201/203/123/89999999 under 15 declared rates or the default, SAMI "
-                   "interleavings of 1-3 languages with blank paragraphs, WebVTT shift in {0,+-1,+-999,+-3600000,12345} "
-                   "strict and lenient, LF and CRLF, 0-2 extra blank lines, cues without text. Non-trivial: a distinct "
-                   "stamp with a non-zero hour, a fraction, a frame field, an offset metric, a shift, a non-zero frame "
-                   "number, or a SAMI language with >= 2 syncs.")
+    res["rule"] = ("abstract documents per format, 1-6 cues (about 1 in 40: 60 / 150 / 300 cues), stamps rendered by the Coq "
+                   "spec renderer (SRT, WebVTT, MicroDVD: the whole document; DFXP, SAMI: the attribute strings, the "
+                   "document around them is assembled by Python): hours from {0,1,9,10,23,24,25,99,100,999}+random with 0-3 "
+                   "extra leading zeros, minutes/seconds {0,1,9,10,59}+random, ms {0,1,9,10,99,100,999}+random, SRT / WebVTT "
+                   "fraction absent or exactly 3 digits (declared decision), DFXP fractions of length 1-20 with leading "
+                   "zeros, frames {0,1,14,15,29}+random, offsets in h/m/s/ms/f with integer and fractional counts, begin+dur "
+                   "(both readings accepted), MicroDVD frames incl. 201/203/123/89999999 under 15 declared rates or the "
+                   "default. 35% of the SRT, WebVTT and MicroDVD documents have cues in arbitrary order (shuffled, "
+                   "overlapping, end before start, equal starts); the lang option of the three readers that take it is "
+                   "varied ('en-US', 'fr', '', None) and the times are read from THAT language, no other language may "
+                   "appear. WebVTT: 1-3 blanks or tabs around '-->', NOTE / STYLE / identifier lines before a cue, shift in "
+                   "{0,+-1,+-999,+-3600000,12345}, strict and lenient; LF and CRLF, 0-2 extra blank lines, cues without "
+                   "text (in the domain for MicroDVD, counted out for SRT / WebVTT). DFXP documents: 1-4 divisions, "
+                   "SAME-language and NESTED divisions, languages on tt / div / default, blank paragraphs; SAMI: 1-3 "
+                   "interleaved languages with blank paragraphs. Explicit well-formed spellings (failing stream): SAMI "
+                   "float-literal starts, WebVTT header text / BOM, CRLF SRT without final newline, MicroDVD rates .5 1e2 +25, "
+                   "DFXP '1s' followed by a line break. ttp:frameRate other than 30: own stream, known finding. "
+                   "Non-trivial: a distinct stamp with a non-zero hour, a fraction, a frame field, an offset metric, a "
+                   "shift, a non-zero frame number, or a SAMI language with >= 2 syncs.")
     res["clauses"] = {
-        "theorem": ["SRT/WebVTT/DFXP clock and offset/MicroDVD stamp parsers return floor(instant*10^6) for all field "
-                    "values, paddings and fraction lengths (C01_*_exact)",
-                    "DFXP begin+dur, WebVTT shift", "SAMI back-filling over all strictly increasing sync lists, 4 s tail",
-                    "document level of SRT, WebVTT and MicroDVD at string level: one caption per non-empty cue, in order "
-                    "(C01_srt_doc_exact, C01_vtt_doc_exact, C01_mdvd_doc_exact, C01_vtt_validation_transparent)"],
-        "correspondence_only": ["DFXP/SAMI text -> abstract tree (BeautifulSoup / html.parser / lxml); from the tree on it is a "
-                                "theorem (C01_dfxp_tree_exact, C01_sami_tree_exact)",
-                                "SAMI int(float(start)) on digit strings below 2^53",
-                                "Python int()/isdigit()/\\d outside ASCII digit strings (never generated)"]}
+        "theorem": ["SRT/WebVTT/DFXP clock and offset/MicroDVD stamp parsers of the model return floor(instant*10^6) for all "
+                    "field values and paddings (fraction length free for DFXP, 0 or 3 digits for SRT/WebVTT) (C01_*_exact)",
+                    "DFXP begin+dur: the model's answer is one of the two readings the oracle accepts "
+                    "(C01_dfxp_div_meets_oracle)", "SAMI back-filling over all strictly increasing sync lists, 4 s tail",
+                    "document level of SRT, WebVTT and MicroDVD at string level, cues in ANY order: one caption per "
+                    "non-empty cue, in document order (C01_srt_doc_exact, C01_vtt_doc_exact, C01_mdvd_doc_exact)",
+                    "DFXP abstract document with same-language and nested divisions: every paragraph with text goes to the "
+                    "language of its nearest division, per language in document order (C01_dfxp_doc_exact); SAMI abstract "
+                    "tree (C01_sami_tree_exact)"],
+        "definitional_or_spec_internal": ["C01_vtt_shift (identity between two spec functions)",
+                                          "C01_dfxp_blank_paragraph_ignored, C01_dfxp_missing_times_refused (unfold the "
+                                          "model)", "C01_dfxp_long_fraction_refuted (history: the pre-fix variant)",
+                                          "C01_dfxp_div_exact, C01_vtt_validation_transparent (liftings / corollaries)"],
+        "correspondence_only": ["DFXP/SAMI text -> abstract tree (BeautifulSoup / html.parser / lxml); the DFXP / SAMI "
+                                "documents are assembled by Python around Coq-rendered attribute strings",
+                                "float() literals of SAMI starts / MicroDVD rates are modelled as decimal literals "
+                                "(dec_literal), exact below 2^53",
+                                "Python int()/isdigit()/\\d outside ASCII digit strings (never generated)",
+                                "the lang option, reader reuse"]}
     res["trusted_extra"] = ["C01: Python int()/isdigit()/\\d modelled on ASCII digit strings only"]
     return res
 
@@ -690,8 +908,9 @@ def replay(ctx, rec):
         reader = make_reader(fmt, opts)
         for h in rec.get("history", []):
             impl.call(lambda: reader.read(h))
-        reused = impl.call(lambda: extract(fmt, reader.read(rec["document"]), rec.get("lang")))
-        fresh = read_with(fmt, rec["document"], opts, rec.get("lang"))
+        reused = impl.call(lambda: extract(fmt, do_read(reader, rec["document"], rec.get("rlang")), rec.get("lang"),
+                                           rec.get("rlang")))
+        fresh = read_with(fmt, rec["document"], opts, rec.get("lang"), rec.get("rlang"))
         return show(reused) != show(fresh), [show(reused), show(fresh)]
     if rec.get("replay") == "tree":
         reader = DFXPReader if fmt == "dfxp-tree" else SAMIReader
@@ -706,7 +925,7 @@ def replay(ctx, rec):
     elif fmt == "dfxp":
         obs = read_with("dfxp", rec["document"], lang="en")
     else:
-        obs = read_with(fmt, rec["document"], opts)
+        obs = read_with(fmt, rec["document"], opts, rlang=rec.get("rlang"))
     if isinstance(obs, Ok) and isinstance(obs.v, tuple):
         return True, show(obs)
     ok = oracle1(105, [rec["expected"], obs])
